@@ -11,9 +11,11 @@ HARNESSES = [
       cuts=['_ZN11xercesc_4_016XMLPlatformUtils17removeDotDotSlashEPDsPNS_13MemoryManagerE'],
       defs={'quick': {'NH': 3, 'NB': 3, 'CUT_DOTDOT': 1}, 'thorough': {'NH': 6, 'NB': 4, 'CUT_DOTDOT': 1}}, unwind={'quick': 12, 'thorough': 16}, timeout={'quick': 300, 'thorough': 1700}),
  dict(name='dotdot', entry='harness_dotdot', srcs=['C20/location.cpp'], tus=TUS, const_tables=[T10, T11],
-      defs={'quick': {'ND': 1}, 'thorough': {'ND': 2}}, unwind={'quick': 6, 'thorough': 8}, timeout={'quick': 300, 'thorough': 1700}, no_unwind_adapt=True),
+      defs={'quick': {'ND': 2}, 'thorough': {'ND': 4}}, unwind={'quick': 7, 'thorough': 9}, timeout={'quick': 300, 'thorough': 1700}, no_unwind_adapt=True),
  dict(name='protocol', entry='harness_protocol', srcs=['C20/location.cpp'], tus=TUS, const_tables=[T10, T11],
       defs={'quick': {'NS': 9}, 'thorough': {'NS': 10}}, unwind={'quick': 12, 'thorough': 13}, timeout={'quick': 600, 'thorough': 1700}),
+ dict(name='history', entry='harness_history', srcs=['C20/history.cpp'], tus=['xinclude/XIncludeUtils.cpp', 'util/XMLString.cpp', 'util/XMLChar.cpp'], const_tables=[T10, T11],
+      defs={'quick': {'K': 3}, 'thorough': {'K': 5}}, unwind={'quick': 6, 'thorough': 8}, timeout={'quick': 300, 'thorough': 1700}),
 ]
 LEVEL_TEXT = ('Bounded model checking of the XInclude kernels that are within reach: href resolution against a base (XIncludeLocation) for ALL strings within the bound, scheme-prefix stripping, '
               'and the inclusion-history stack that implements loop detection for ALL push/pop scripts within the bound.')
